@@ -346,8 +346,16 @@ def rnd_tensor(rng, lib_only=True):
 def rnd_coef(rng):
     c = Rational(rng.choice([1, 1, -1, 2, -2, 3, -1, 5, 7, 12]),
                  rng.choice([1, 1, 2, 4, 3, 8, 16]))
-    if rng.random() < 0.2:
+    r = rng.random()
+    if r < 0.2:
         c *= sqrt(rng.choice([2, 3, 6])) ** rng.choice([1, -1])
+    elif r < 0.35:
+        # multi-digit radicands: normalisation factors 1/sqrt(n_o! n_v!) ...
+        c *= sqrt(rng.choice([10, 14, 15, 21, 30, 35, 42, 105, 210, 11, 13,
+                              1001])) ** rng.choice([1, -1])
+    elif r < 0.42:
+        c *= sqrt(rng.choice([2, 3, 7])) * sqrt(rng.choice([5, 11, 13])) \
+            / rng.choice([1, 5])
     return c
 
 
@@ -469,6 +477,12 @@ def fixed_exprs():
         SymmetricTensor(tn.coulomb, (a, b), ()) *
         AntiSymmetricTensor("A", (ia, jb), ()),
         NonSymmetricTensor("n", ()) * Amplitude(tn.right_adc_amplitude, (), ()),
+        Amplitude(tn.right_adc_amplitude, (a,), (i,)) / sqrt(10),
+        sqrt(14) * V, -sqrt(15) * t * V / 4, V / sqrt(120), sqrt(2) * sqrt(5) * V,
+        Amplitude(tn.left_adc_amplitude, (a, b, c), (i, j, k)) / sqrt(36) +
+        Amplitude(tn.left_adc_amplitude, (a, b), (i, j, k)) / sqrt(12) -
+        Amplitude(tn.left_adc_amplitude, (a, b, c), (i, j)) * sqrt(105) / 210,
+        sqrt(210) * x / 7, sqrt(1001),
         AntiSymmetricTensor(tn.eri, (i3, j), (a12, b)) *
         Amplitude(tn.gs_amplitude + "1", (aa, bb), (ia, jb)),
         AntiSymmetricTensor(tn.operator, (p,), (q,)) * Fd(p) * F(q),
